@@ -191,7 +191,40 @@ def probe_order0(order):
     return {"ok": bool(err <= 1e-12), "err": err}
 
 
-PROBES = {"phi": probe_phi, "order": probe_order, "order0": probe_order0}
+def probe_step(order, z, dt=0.5):
+    """one step of the implementation vs the Cox–Matthews scheme written out with independently computed φ functions
+    (this also exercises the propagators exp(z), exp(z/2) as they are USED in the stages)"""
+    import jax.numpy as jnp
+    z = complex(z)
+    if z.real > 20:
+        return {"ok": True, "skipped": "growth"}
+    Nf = lambda v: 0.5 * v * v + 0.3
+    u = np.clongdouble(0.4 - 0.3j)
+    integ = impl_integrator(order, dt, np.array([z / dt]), 16, 1.0, lambda v: 0.5 * v * v + 0.3)
+    got = complex(np.asarray(integ.step_fourier(jnp.asarray([[complex(u)]])))[0, 0])
+    p1, p2, p3 = phi_ref(z)
+    h1 = phi_ref(z / 2)[0] / 2
+    E, Eh = np.exp(np.clongdouble(z)), np.exp(np.clongdouble(z) / 2)
+    if order == 1:
+        want = E * u + dt * p1 * Nf(u)
+    elif order == 2:
+        a = E * u + dt * p1 * Nf(u)
+        want = a + dt * p2 * (Nf(a) - Nf(u))
+    elif order == 3:
+        a = Eh * u + dt * h1 * Nf(u)
+        b = E * u + dt * p1 * (2 * Nf(a) - Nf(u))
+        want = E * u + dt * ((p1 - 3 * p2 + 4 * p3) * Nf(u) + (4 * p2 - 8 * p3) * Nf(a) + (4 * p3 - p2) * Nf(b))
+    else:
+        a = Eh * u + dt * h1 * Nf(u)
+        b = Eh * u + dt * h1 * Nf(a)
+        c = Eh * a + dt * h1 * (2 * Nf(b) - Nf(u))
+        want = E * u + dt * ((p1 - 3 * p2 + 4 * p3) * Nf(u) + 2 * (p2 - 2 * p3) * (Nf(a) + Nf(b)) + (4 * p3 - p2) * Nf(c))
+    want = complex(want)
+    err = abs(got - want) / (abs(want) + 1e-12)
+    return {"ok": bool(err <= 1e-7), "rel_err": float(err), "got": got, "expected": want}
+
+
+PROBES = {"phi": probe_phi, "order": probe_order, "order0": probe_order0, "step": probe_step}
 
 
 def oracle(ctx, deep):
@@ -214,6 +247,15 @@ def oracle(ctx, deep):
                                       f"(rel err {r['worst_rel_err']:.2e})",
                               "probe": "phi", "args": {"order": order, "z": [z.real, z.imag]}, "observed": r})
                 break
+        for z in zs + [3.25j, -0.01 - 3.162j, -0.003 + 3.17j, 6.4j, -7.0j]:
+            z = complex(z)
+            r = probe_step(order, z)
+            ctx.count(("oracle_step", order, z))
+            if not r["ok"]:
+                fails.append({"key": f"C02:step:order{order}",
+                              "what": f"one ETDRK{order} step differs from the Cox–Matthews scheme with exact phi functions at z={z} (rel err {r['rel_err']:.2e})",
+                              "probe": "step", "args": {"order": order, "z": [z.real, z.imag]}, "observed": r})
+                break
         r = probe_order0(order)
         if not r["ok"]:
             fails.append({"key": f"C02:order0:order{order}", "what": f"ETDRK{order} with zero nonlinearity is not the propagator",
@@ -230,4 +272,6 @@ def oracle(ctx, deep):
 def replay(probe, args):
     if probe == "phi":
         return probe_phi(args["order"], complex(*args["z"]))
+    if probe == "step":
+        return probe_step(args["order"], complex(*args["z"]))
     return PROBES[probe](**args)
